@@ -11,7 +11,7 @@ func init() {
 		ID: "C12",
 		Decides: "(R12.1) Tree.IsValid succeeds only after traversing every node; its per-node callback continues only after the node's own validity check succeeded and the node's hash was compared equal to nodeHash(node, its two children), and it never stops early without an error; Traverse visits every index in order; " +
 			"(R12.2) nodeHash's digest input is key || left.Hash || right.Hash of its arguments (all three, in that order) and rejects an empty key; generateNodeHash stores exactly nodeHash of the node and its children; " +
-			"(R12.3) Proof.Prove returns success only if, at every level, a parent's hash was compared equal to nodeHash(parent, the two children of that level), and never for an empty node list; Proof.IsValid rejects duplicated keys/hashes and nil nodes beyond the first pair; " +
+			"(R12.3) Proof.Prove returns success only if, at every level, a parent's hash was compared equal to nodeHash(parent, the two children of that level) — at the first level the parent being the node that carries the proved key — and never for an empty node list; Proof.IsValid rejects duplicated keys/hashes and nil nodes beyond the first pair; " +
 			"(R12.4) Writer.Add/Tree.Set store only inside the node slice.",
 		NotDecided: "collision resistance of SHA-256; completeness of proofs for all tree shapes (the index arithmetic children/parent/indexHeight over runtime values); float log2 exactness beyond 2^47 indices.",
 		Run:        runC12,
@@ -108,6 +108,8 @@ func runC12(c *Ctx) {
 			c.MPEdge(fn, "a level passes only under parent.Hash().Equal(nodeHash(parent, left, right))", edges, 1,
 				GTrue("*.Hash().Equal(fixedtree.nodeHash(*, p.filterNodes(key)[(ι * 2)], p.filterNodes(key)[((ι * 2) + 1)])#0)"))
 			c.MPEdge(fn, "a level passes only if the hash computation succeeded", edges, 1, GOkTo("util/fixedtree.nodeHash"))
+			c.MPEdge(fn, "the first level passes only through the node that carries the proved key", edges, 1,
+				GCmp("ι", "!=", "0"), GCmp("*[ι′].Key()", "==", "key"))
 		}
 		nh := c.CallsTo(fn, "util/fixedtree.nodeHash")
 		c.ArgIs(fn, "level hash over the level's first child", nh, 1, 1, "p.filterNodes(key)[(ι * 2)]")
